@@ -301,3 +301,10 @@ __CPROVER_ensures (V_WFF_AT (r, gk) && V_PTR (r) == __CPROVER_old (V_PTR (r)) &&
   __CPROVER_assert ((long) V_SIZ (u) == su && (gk < rn ==> V_PTR (u)[gk + (un - rn)] == Uk), "[C05] source unchanged");
 }''', timeout=600,
     selftest=[('__gmpf_set_z', r'up \+= asize - prec;', ';'), ('__gmpf_set_z', r'\(\(r\)->_mp_exp\) = asize;', '((r)->_mp_exp) = asize - 1;')]))
+
+# the mpf comparison / conversion functions are named by C11 as well: run them in C11's quick tier too (seed C11_seed3, mpf_cmp_si, was missed without this)
+for _u in UNITS:
+    if 'C11' in _u['props'] and _u['props'][0] != 'C11':
+        _u.setdefault('quick_props', [])
+        if 'C11' not in _u['quick_props']:
+            _u['quick_props'] = _u['quick_props'] + ['C11']
